@@ -12,3 +12,21 @@ CHECKS = {
     note='Trusted: the 20-line reference codec in harness/ref_vlq.py (validated on worked examples at start of each run).',
     technique='exhaustive enumeration + Hypothesis property-based testing; round-trip and differential oracle'),
 }
+CHECKS.update({
+ 'C04': dict(
+    text='Grammar-derived programs with Hypothesis-chosen subsets of statement terminators omitted behind every kind of line-break-carrying layout, wild variants that break restricted productions or drop for-header/empty-statement semicolons, and an enumerated product statement kind x separator x following text x context (full in the thorough tier). ECMA-262 7.9.1 is implemented literally in the reference parser; acceptance and trees are compared, plus the metamorphic explicit-vs-omitted clause.',
+    note=R1NOTE,
+    technique='differential + metamorphic property-based testing (Hypothesis) and exhaustive product enumeration against a reference ASI implementation'),
+ 'C05': dict(
+    text='Exhaustive enumeration of a slash-context product (151 preceding constructs x 11 layouts x 6 continuations, all run in both tiers) plus grammar-derived programs weighted towards /, /= and regex literals; the reference lexer receives the goal symbol from its parser as the specification defines, calmjs must agree on acceptance and on the tree (which spells each regex and division).',
+    note=R1NOTE,
+    technique='differential testing against a goal-symbol-driven reference lexer/parser: exhaustive product enumeration + Hypothesis'),
+ 'C06': dict(
+    text='Generated slash-free lexical soup (must lex; compared token by token with the reference lexer) and grammar-derived programs; conservation (substring, order, gaps only layout, tiling), location (line/column vs reference counting of LF/CR/CRLF/LS/PS, also inside multi-line tokens) and classification (longest match, keyword only on exact match).',
+    note='Trusted: reference lexer of harness/ref_es5.py and harness/positions.py. Inputs on which the lexer raises are outside the quantifier and are counted, not judged.',
+    technique='Hypothesis property-based testing with invariant + differential oracle'),
+ 'C12': dict(
+    text='Random Unicode text, lexical soup with broken pieces, truncations and single-character corruptions of valid programs, and exhaustive enumeration of all strings up to length 3 (quick) / 4 (thorough) over a 32-character hot alphabet, each through parse, parse with comments and bare lexer iteration; outcome must be a tree or ECMASyntaxError, must terminate (watchdog, confirmed by re-run), and the first quoted text of a message must occur at the quoted line:column.',
+    note='Trusted: harness/positions.py; message formats parsed as the library prints them. Termination judged by a 20 s / 60 s watchdog.',
+    technique='fuzzing-style robustness testing: Hypothesis text/corruption generators + exhaustive short-string enumeration; exception-type and message-position oracle'),
+})
